@@ -17,7 +17,7 @@ def load_known():
 
 def belongs(o, unit, pid):
     if o.get('tag'):
-        return o['tag'] == pid
+        return pid in o['tag'].split(',')
     return unit['primary'] == pid
 
 
